@@ -208,8 +208,8 @@ def malformations(typ):
 LENIENT = ('extra-result-without-target', 'cose-too-many-items', 'cose-payload-not-detached')
 
 
-def judge_case(label, data, keymode, accept, expect, report, plain_payload):
-    (world, delivered, reasons) = c16.receive(data, keymode, accept) if label['block'] == 'bcb' else _recv_bib(data, keymode, accept)
+def judge_case(label, data, keymode, accept, expect, report, plain_payload, extra_keys=None):
+    (world, delivered, reasons) = c16.receive(data, keymode, accept) if label['block'] == 'bcb' else _recv_bib(data, keymode, accept, extra_keys)
     out = []
 
     def bad(kind, sig, detail):
@@ -253,10 +253,13 @@ def judge_case(label, data, keymode, accept, expect, report, plain_payload):
     return out, bool(delivered)
 
 
-def _recv_bib(data, keymode, accept):
+def _recv_bib(data, keymode, accept, extra_keys=None):
     world = BpWorld(dict(node_id=NODE, rx_routes=[('^dtn://node/.*', 'deliver')], tx_routes=[('.*', 'dtn://next/', None)],
                          accept_after_verify=accept))
     cose = world.cose()
+    for (kid, key) in (extra_keys or {}).items():
+        key.kid = kid
+        cose.sym_key_store[kid] = key
     if keymode == 'right':
         cose.sym_key_store[KID] = sym_key(KEY, ['MacCreateOp', 'MacVerifyOp'], 'HMAC256')
     elif keymode == 'wrong':
@@ -381,6 +384,48 @@ def run_block(params, known):
                     (found, dlv) = judge_case(label, B.encode(swapped), 'right', accept, 'reject', True, plainb['blocks'][-1]['data'])
                     take(found)
                     count += 1
+    if block == 'bib':
+        # one integrity block, two targets, each result made with a key of its own: verifies when the receiver holds
+        # both keys; a result that names one key and was made with the other, or names a key the receiver lacks, fails
+        KEY2 = bytes(range(200, 232))
+        KID2 = b'second-key'
+        plainb = c03.plain_bundle()
+        other = [b['num'] for b in plainb['blocks'] if b['type'] == 193][0]
+        for (vname, per, have_second, expect) in (
+                ('two-keys', [(KEY, KID), (KEY2, KID2)], True, 'deliver'),
+                ('two-keys-swapped', [(KEY2, KID2), (KEY, KID)], True, 'deliver'),
+                ('second-result-names-a-key-it-was-not-made-with', [(KEY, KID), (KEY, KID2)], True, 'reject'),
+                ('first-result-names-a-key-it-was-not-made-with', [(KEY2, KID), (KEY2, KID2)], True, 'reject'),
+                ('second-key-unknown-to-the-receiver', [(KEY, KID), (KEY2, KID2)], False, 'reject')):
+            bundle = A.add_bib(plainb, [1, other], KEY, KID, SRC, scope={0: 1, -1: 1}, num=4, per_target=per)
+            for accept in (False, True):
+                label = dict(block=block, malformation=('none' if expect == 'deliver' else vname), report=True, keys=vname)
+                extra = {KID2: sym_key(KEY2, ['MacCreateOp', 'MacVerifyOp'], 'HMAC256')} if have_second else {}
+                (found, dlv) = judge_case(label, B.encode(bundle), 'right', accept, expect, True, plainb['blocks'][-1]['data'], extra_keys=extra)
+                take(found)
+                count += 1
+                keys.add('bib/%s/%s' % (vname, accept))
+        # the payload is an administrative record written in another way than a shortest-form encoder would (an
+        # indefinite-length array): the integrity block covers those octets; delivered unchanged, and a re-encoding on
+        # the way (same record, other octets) breaks it
+        record = B.enc_status_report([(True, None), (False, None), (False, None), (False, None)], 0, 'dtn://elsewhere/app', (700000000001, 3))
+        loose = b'\x9f' + record[1:] + b'\xff'
+        for (pname, sent, altered) in (('shortest-form', record, loose), ('indefinite-array', loose, record)):
+            plainb = c03.plain_bundle()
+            plainb['primary']['flags'] |= B.FLAG_ADMIN
+            plainb['blocks'][-1]['data'] = sent
+            good = A.add_bib(plainb, [1], KEY, KID, SRC, scope={0: 1, -1: 1}, num=4)
+            swapped = copy_bundle(good)
+            swapped['blocks'][-1]['data'] = altered
+            for accept in (False, True):
+                label = dict(block=block, malformation='none', report=True, record=pname)
+                (found, dlv) = judge_case(label, B.encode(good), 'right', accept, 'deliver', True, sent)
+                take(found)
+                label = dict(block=block, malformation='administrative-record-reencoded-on-the-way', report=True, record=pname)
+                (found, dlv) = judge_case(label, B.encode(swapped), 'right', accept, 'reject', True, sent)
+                take(found)
+                count += 2
+                keys.add('bib/admin-record-%s/%s' % (pname, accept))
     if block == 'bcb':
         # a bundle whose security blocks all verify is delivered: confidentiality blocks over empty
         # and one-octet contents, one and two targets
